@@ -27,6 +27,7 @@ var c15Patterns = []struct{ SQL, Re string }{
 	{"A B", "AB"}, {"A B C", "ABC"}, {"A+ B", "A+B"}, {"A B+ C", "AB+C"}, {"A{2}", "A{2}"}, {"A{2,3} B", "A{2,3}B"},
 	{"A B? C", "AB?C"}, {"A* B", "A*B"}, {"(A B)+", "(AB)+"}, {"(A | B) C", "(A|B)C"}, {"A (B | C)+ D", "A(B|C)+D"},
 	{"PERMUTE(A, B) C", "(AB|BA)C"}, {"A+", "A+"}, {"A B*", "AB*"}, {"A{2,} B", "A{2,}B"}, {"A B C D", "ABCD"},
+	{"A{1,3} B", "A{1,3}B"}, {"A{2,4}", "A{2,4}"}, {"A B{0,3} C", "AB{0,3}C"}, {"(A B){1,3} C", "(AB){1,3}C"},
 }
 
 func (c15) Gen(rng *simrt.Rand, seed uint64, tier string) *Case {
